@@ -14,14 +14,10 @@ macro_rules! probes {
 probes! {
     PUSH_SEND = 0, "push_send: a sender registered in the wait list";
     PUSH_RECV = 1, "push_recv: a receiver registered in the wait list";
-    CANCEL_SEND_OK = 2, "cancel_send_signal removed the waiter";
     CANCEL_SEND_LOST = 3, "cancel_send_signal: waiter already claimed by a peer";
-    CANCEL_RECV_OK = 4, "cancel_recv_signal removed the waiter";
     CANCEL_RECV_LOST = 5, "cancel_recv_signal: waiter already claimed by a peer";
     PARK_ENTER = 6, "Signal::wait reached the park path (LOCKED -> LOCKED_STARVATION)";
-    PARK_RACE_LOST = 7, "Signal::wait: peer finished between spin and park (CAS failed)";
     WAKE_STARVATION = 8, "Signal::wake saw LOCKED_STARVATION and unparked the waiter";
-    WAKE_FAST = 9, "Signal::wake completed a spinning sync waiter by CAS";
     WAKE_ASYNC = 10, "Signal::wake woke an async waker";
     WAKER_REFRESH = 11, "future re-registered a changed waker";
     POLL_SYNC_FALLBACK = 12, "future poll: waker changed after claim, waited synchronously";
@@ -32,12 +28,8 @@ probes! {
     WAIT_TIMEOUT_ENTER = 17, "Signal::wait_timeout entered";
     ABW_ENTER = 18, "Signal::async_blocking_wait entered";
     TERMINATE_SIGNALS = 19, "terminate_signals released at least one waiter";
-    PARK_RETURN_PENDING = 20, "park returned while the signal was still pending (spurious or early token)";
-    WAIT_TIMEOUT_EXPIRED = 21, "wait_timeout left its loop because the deadline passed";
-    REFILL_FROM_SENDER = 22, "a receive moved a waiting sender's value into the buffer";
     DIRECT_FROM_SENDER = 23, "a receive read directly out of a waiting sender's slot";
     DIRECT_TO_RECEIVER = 24, "a send wrote directly into a waiting receiver's slot";
-    HARNESS_0 = 32, "harness probe 0";
 }
 
 pub const N_PROBES: usize = 48;
